@@ -34,6 +34,9 @@ type C13Scenario struct {
 	StoreLast  bool       `json:"store_last,omitempty"` // WithStore is the last option instead of the first
 	// PubDeadline: every publish carries a context with its own deadline, far later than the persistence timeout
 	PubDeadline bool `json:"pub_deadline,omitempty"`
+	// StallPost (durable-streams with a persistence timeout): these appends stall on the wire - the server
+	// sits on the POST for 200 ms of simulated time, far beyond the timeout
+	StallPost []int `json:"stall_post,omitempty"`
 	TimeoutMs  int        `json:"timeout_ms,omitempty"`
 	Obs        bool       `json:"obs,omitempty"`
 	Handlers   []SubOpts  `json:"handlers"`
@@ -66,6 +69,9 @@ func genC13(rt *rapid.T) core.Scenario {
 	sc.TimeoutMs = rapid.SampledFrom([]int{0, 0, 5, 50}).Draw(rt, "timeout")
 	if sc.TimeoutMs > 0 {
 		sc.Plan.BlockAppend = idx.Draw(rt, "blockAppend")
+		if sc.Store.Kind == "ds" {
+			sc.StallPost = idx.Draw(rt, "stallPost")
+		}
 	}
 	sc.ErrHandler = rapid.IntRange(0, 3).Draw(rt, "errHandler") > 0
 	sc.Reentrant = sc.ErrHandler && rapid.IntRange(0, 3).Draw(rt, "reentrant") == 3
@@ -108,6 +114,7 @@ func (sc *C13Scenario) Execute(t *testing.T) *core.Outcome {
 	appendedIDs := []int{} // ids whose Append became durable, in log order
 	outcomes := map[int][]string{} // event id -> what each Append call for it was told
 	var maxBlock time.Duration
+	stalled := 0
 	body := func() {
 		env := newStoreEnv()
 		defer env.Close()
@@ -115,6 +122,12 @@ func (sc *C13Scenario) Execute(t *testing.T) *core.Outcome {
 		if err != nil {
 			out.HarnessErr = err.Error()
 			return
+		}
+		if srv := env.servers["main"]; srv != nil {
+			for _, k := range sc.StallPost {
+				srv.DelayPost[srv.nPost+k] = 200 * time.Millisecond
+			}
+			defer func() { stalled = srv.Fired["post-delayed"] }()
 		}
 		fc = newFcore(inner, sc.Plan, &rec)
 		fc.OnAppend = func(off eventbus.Offset, ev *eventbus.Event) {
@@ -262,6 +275,9 @@ func (sc *C13Scenario) Execute(t *testing.T) *core.Outcome {
 			out.Fault(k)
 		}
 	}
+	for i := 0; i < stalled; i++ {
+		out.Fault("post-stalls-past-timeout")
+	}
 	if rep.BudgetExceeded {
 		out.HarnessErr = "step budget exceeded"
 		return out
@@ -395,7 +411,7 @@ func (sc *C13Scenario) Execute(t *testing.T) *core.Outcome {
 			out.V("timeout-not-applied", "a blocked Append returned without its context being done")
 		}
 	}
-	if n := fc.Fired["append-blocks-until-deadline"]; n > 0 {
+	if n := fc.Fired["append-blocks-until-deadline"] + stalled; n > 0 {
 		limit := time.Duration(n*sc.TimeoutMs)*time.Millisecond + time.Millisecond
 		if maxBlock > limit {
 			out.V("timeout-not-applied", "a publish blocked for %v with a persistence timeout of %d ms", maxBlock, sc.TimeoutMs)
